@@ -51,6 +51,11 @@ class _D:
 
     __radd__ = __add__
 
+    def __sub__(self, td):
+        if not isinstance(td, _TD):
+            return NotImplemented
+        return _D(*self.f, tzinfo=self.tzinfo, extra=self.extra - td.total)
+
 
 def _time_mod(ctx):
     import ocean_science_utilities.tools.time as T
